@@ -57,6 +57,8 @@ deriving DecidableEq, Repr, Inhabited
 structure Script where
   rules : List SRule := []
   record : Bool := false
+  /-- emit the actions in the order the Python bridge relays them (sends, local sends, timer operations) -/
+  canon : Bool := false
 deriving DecidableEq, Repr, Inhabited
 
 /-- script process state: control state and (when recording) the triggers seen so far -/
@@ -85,11 +87,21 @@ def SAct.toAction (dat : List Nat) : SAct → Action
   | .clock tip => .loc ⟨tip, []⟩
   | .rand tip => .loc ⟨tip, []⟩
 
+def Action.isSend : Action → Bool | .send .. => true | _ => false
+def Action.isLoc : Action → Bool | .loc .. => true | _ => false
+def Action.isTimerOp : Action → Bool | .set .. => true | .cancel .. => true | _ => false
+
+/-- the order in which `PyProcess::handle_proc_actions` relays recorded actions -/
+def canonOrder (as : List Action) : List Action :=
+  as.filter Action.isSend ++ as.filter Action.isLoc ++ as.filter Action.isTimerOp
+
 def Script.handle (sc : Script) (s : PState) (i : Input) : PState × List Action :=
   let hist := if sc.record then s.hist ++ [i.trig] else s.hist
   match sc.rules.find? (fun r => r.st == s.st && r.trig == i.trig) with
   | none => ({ s with hist }, [])
-  | some r => ({ st := r.st2, hist }, r.acts.map (SAct.toAction i.data))
+  | some r =>
+    let acts := r.acts.map (SAct.toAction i.data)
+    ({ st := r.st2, hist }, if sc.canon then canonOrder acts else acts)
 
 /-- a system of scripts, one per process name -/
 def scriptHandler (scripts : List (Nat × Script)) : Handler PState :=
